@@ -253,6 +253,8 @@ PIPE_CLASSES = [c for c in gens.CLASSES]
 def gen_pipeline(draw, tier="quick", kind="srf"):
     dim = draw(st.sampled_from([2, 3]))
     classes = [c for c in PIPE_CLASSES if gens.max_valid_dim(c) >= dim]
+    if kind == "fourier":
+        classes = ["Gaussian", "Exponential", "Matern"]
     if kind in ("srf", "condsrf", "vector"):
         # generators whose spectral sampling is cheap and well behaved
         classes = ["Gaussian", "Exponential", "Matern", "Integral", "TPLGaussian", "JBessel"]
@@ -275,7 +277,14 @@ def gen_pipeline(draw, tier="quick", kind="srf"):
     n = draw(st.integers(2, 7))
     pos = draw(gens.point_cloud(dim, n_min=n, n_max=n, kinds=("cloud",)))
     case = {"kind": kind, "spec": spec, "pos": pos, "seed": draw(st.integers(0, 2**31 - 1))}
-    if kind in ("krige", "condsrf", "srf", "vector") and draw(st.integers(0, 2)) == 0:
+    if kind == "fourier":
+        ls_ = spec["len_scale"] / (spec.get("rescale") or 1.0)
+        case["period"] = [float(draw(st.floats(4.0, 12.0)) * ls_) for _ in range(dim)]
+        case["fmodes"] = [draw(st.sampled_from([4, 6, 8])) for _ in range(dim)]
+        if draw(st.integers(0, 2)) == 0:
+            # the target model is isotropic (ratios 1) but reached from an anisotropic one
+            spec["anis"] = [1.0] * (dim - 1)
+    if kind in ("krige", "condsrf", "srf", "vector", "fourier") and draw(st.integers(0, 2 if kind != "fourier" else 1)) == 0:
         # the object is built with another orientation; the model is then re-oriented in place and refreshed as documented
         case["start"] = {"anis": draw(st.lists(logfloat(0.15, 6.0), min_size=dim - 1, max_size=dim - 1)), "angles": draw(_angles(geo.n_angles(dim))),
                          "use_first": draw(st.booleans())}
@@ -302,6 +311,8 @@ def _iso_spec(spec):
 
 def _nontrivial_pipe(case):
     s = case["spec"]
+    if case.get("kind") == "fourier":
+        return bool(case.get("start")) or any(a != 1.0 for a in s["anis"])
     return _nontrivial_geo({"dim": s["dim"], "angles": s["angles"], "anis": s["anis"]})
 
 
@@ -373,6 +384,28 @@ def check_pipeline(case, rec):
             f"{kind}: field of anisotropic model at x differs from isotropic model at S^-1R^Tx by {err:.3g} (tol {tol:.3g})",
             tags,
         )
+    elif kind == "fourier":
+        # periodic generator: the mode spacing follows the ratios, so the anisotropic model with periods L at x is the isotropic
+        # model with periods L / [1, anis] at the transformed positions (same seed, same mode numbers)
+        L = np.array(case["period"], dtype=float)
+        an = np.concatenate([[1.0], geo.pad_anis(dim, spec["anis"])])
+        kwf = dict(generator="Fourier", mode_no=list(case["fmodes"]), seed=case["seed"])
+        start = case.get("start")
+        if start:
+            rec.label("reoriented_in_place")
+            srf_a = gs.SRF(build_model(dict(spec, anis=start["anis"], angles=start["angles"])), period=list(L), **kwf)
+            srf_a(pos)
+            srf_a.model.anis = spec["anis"]
+            srf_a.model.angles = spec["angles"]
+            f_a = lib(lambda: srf_a() if start.get("use_first") else srf_a(pos), _what="Fourier SRF after in-place re-orientation", _tags=tags)
+        else:
+            f_a = lib(lambda: gs.SRF(m_a, period=list(L), **kwf)(pos), _tags=tags)
+        f_i = lib(lambda: gs.SRF(m_i, period=list(L / an), **kwf)(pos_iso), _tags=tags)
+        kmax_ = float(np.max(2 * np.pi / (L / an) * np.array(case["fmodes"])))
+        tol = 1e-10 * sd * (1.0 + kmax_ * cond) * float(np.prod(case["fmodes"]))
+        err = float(np.max(np.abs(np.asarray(f_a) - np.asarray(f_i))))
+        rec.discrepancy("fourier", err, tol)
+        require(err <= tol, f"Fourier field of the anisotropic model at x differs from the isotropic model (periods L / [1, anis]) at S^-1R^Tx by {err:.3g} (tol {tol:.3g})", tags)
     elif kind == "krige":
         cp = np.array(case["cond_pos"], dtype=float).reshape(dim, -1)
         cp_iso = M @ cp
@@ -442,5 +475,6 @@ SUBS = [
     Sub("pipe_krige", _g("krige"), check_pipeline, quick=300, thorough=8000, shards_quick=2, shards_thorough=4),
     Sub("pipe_condsrf", _g("condsrf"), check_pipeline, quick=120, thorough=3000, shards_quick=2, shards_thorough=4),
     Sub("pipe_vector", _g("vector"), check_pipeline, quick=100, thorough=2000, shards_quick=2, shards_thorough=2),
+    Sub("pipe_fourier", _g("fourier"), check_pipeline, quick=160, thorough=4000, shards_quick=2, shards_thorough=4),
     Sub("cov_extract", _g("covx"), check_pipeline, quick=300, thorough=8000, shards_quick=2, shards_thorough=4),
 ]
